@@ -41,6 +41,7 @@ func rotate(deg float64) aff {
 	return aff{c, s, -s, c, 0, 0}
 }
 func skewX(deg float64) aff { return aff{1, 0, math.Tan(deg * math.Pi / 180), 1, 0, 0} }
+func skewY(deg float64) aff { return aff{1, math.Tan(deg * math.Pi / 180), 0, 1, 0, 0} }
 
 // ---- menus -------------------------------------------------------------------------------
 
@@ -60,6 +61,9 @@ var sizes = []sizeSpec{
 	{`viewBox="0 0 96 48"`, 96 * pxmm, 48 * pxmm, ident, true, "size from the viewBox"},
 	{`width="100mm" height="60mm" viewBox="0,0,100,60"`, 100, 60, scale(1/pxmm, 1/pxmm), true, "viewBox separated by commas"},
 	{`width="100mm" height="60mm" viewBox="0 0 100 30"`, 100, 60, translate(0, 30*0/pxmm).mul(scale(1/pxmm, 1/pxmm)).mul(translate(0, 15)), false, "anisotropic viewBox (default preserveAspectRatio xMidYMid meet)"},
+	// preserveAspectRatio="none": the viewBox is stretched to the viewport, each axis with its own factor
+	{`width="100mm" height="60mm" viewBox="10 20 100 30" preserveAspectRatio="none"`, 100, 60, scale(1/pxmm, 2/pxmm).mul(translate(-10, -20)), true, "stretched viewBox with offset (y doubled)"},
+	{`width="100mm" height="60mm" viewBox="-5 8 50 60" preserveAspectRatio="none"`, 100, 60, scale(2/pxmm, 1/pxmm).mul(translate(5, -8)), true, "stretched viewBox with offset (x doubled)"},
 }
 
 type xf struct {
@@ -79,6 +83,11 @@ var xforms = []xf{
 	{"scale(2,0.5)", scale(2, 0.5), true},
 	{"rotate(30) translate(10 5)", rotate(30).mul(translate(10, 5)), true},
 	{"skewX(20)", skewX(20), false},
+	// transform lists may be separated by commas and white space (SVG 1.1 7.6: comma-wsp)
+	{"translate(10,5),rotate(30)", translate(10, 5).mul(rotate(30)), true},
+	{"translate(10) , scale(2 0.5)", translate(10, 0).mul(scale(2, 0.5)), true},
+	{" rotate( -30 , 10 , 4 ) ", translate(10, 4).mul(rotate(-30)).mul(translate(-10, -4)), true},
+	{"skewY(15)", skewY(15), false},
 }
 
 type shapeSpec struct {
@@ -522,7 +531,7 @@ func Prop() *fw.Property {
 	return &fw.Property{
 		ID:    "C19",
 		Level: "model_checking",
-		Rule: "every document of the grammar {7 size/viewBox forms} x {10 transform lists, nested up to 2} x {11 shapes} x {18 style sources (presentation attributes in both orders, style attribute, inherited from g, class/id CSS rules, colour syntaxes)} is parsed by ParseSVG; " +
+		Rule: "every document of the grammar {9 size/viewBox forms (incl. stretched viewBoxes with an offset under preserveAspectRatio=none)} x {14 transform lists (space and comma separated, white space inside), nested up to 2} x {11 shapes} x {18 style sources (presentation attributes in both orders, style attribute, inherited from g, class/id CSS rules, colour syntaxes)} is parsed by ParseSVG; " +
 			"an independent evaluator of the SVG semantics for exactly this grammar (viewport/viewBox mapping, right-to-left transform composition, shape-to-path equivalences of SVG 1.1 ch.9, cascade: presentation attribute < CSS rule < style attribute, initial values) gives the expected canvas size, geometry in mm (y up) and computed style; compared with the layer the canvas replays (dense two-sided Hausdorff distance, paints, effective stroke width, cap, join, miter limit)",
 		Assumptions: []string{
 			"grammar as listed; text, gradients, markers, fill-rule, opacity, preserveAspectRatio attributes are outside it",
